@@ -136,7 +136,7 @@ class C18(Check):
                   "which object' record are the only thing that sees a wrong cast in the deleter. The correspondence is "
                   "bounded-exhaustive (all applicable sequences to depth 4 over a pool of 3 pointers + a vector, 2 types; optional "
                   "to depth 3) + sampled (random to length 20), not proved. The const T& and T&& overloads of optional share one "
-                  "model function each and are distinguished only by the driver. LeakSanitizer runs after a sample of the cases.")
+                  "model function each and are distinguished only by the driver. Leaks: allocator bytes are compared before/after every case and LeakSanitizer confirms any growth.")
     rule = ("quaint_ptr: every applicable operation sequence of depth 4 (thorough: also depth 5 on a pool of 2 and depth 4 with 3 types) "
             "over {make<T>, move-construct, move-assign (incl. self), reset, destroy, push_back(move), reserve, clear, move out of "
             "vector} on a pool of 3 pointers + one std::vector<quaint_ptr>, then random sequences of length 12-20 (biased to "
@@ -189,7 +189,7 @@ class C18(Check):
                     o = rng.choice(alpha)
                 seq.append(o)
                 st = q_shape_step(st, o)
-            yield q_case(3, seq, lsan=(n % 10 == 0)), "q-rand"
+            yield q_case(3, seq), "q-rand"
         # (iii) malformed: any operation at any time, also on slots that do not exist
         wild = q_alphabet(4, 3, 4)
         for n in range(500 if quick else 5000):
@@ -218,7 +218,7 @@ class C18(Check):
                     seq.append(("dc", i))
                 else:
                     seq.append(("rd", i))
-            yield o_case(kind, P, seq, lsan=(n % 10 == 0)), "o-rand"
+            yield o_case(kind, P, seq), "o-rand"
 
     # ------------------------------------------------------------ classification
     def nontrivial(self, case, mobs, iobs):
